@@ -160,6 +160,171 @@ def simulate_one(args):
         return (i, j, k, epw, '%s: %s' % (type(e).__name__, str(e)[:200]))
 
 
+def simulate_climate(args):
+    """(pool worker) one archetype alone, one day, under a member of the climate family of harness/v4_util.py laid over
+    the rural file (kind None: the file as shipped); generate, simulate, write. -> JSON-able dict: error (or None), the
+    HVAC branches its BEMCalc calls took, hours with a completely dry / saturated canyon, canyon temperature range"""
+    repo, i, j, k, src, month, day, kind, dtsim = args
+    os.environ['UWG_REPO'] = repo
+    core.REPO = repo
+    import math
+    import tempfile
+    import s1_util as S
+    import v4_util as V4
+    out = {'cell': [i, j, k], 'climate': kind or 'as shipped', 'epw': src, 'month': month, 'day': day, 'dtsim': dtsim,
+           'error': None, 'branches': {}, 'dry_hours': 0, 'saturated_hours': 0}
+    tmp = None
+    u = U.uwg_mod()
+    import uwg.building as B
+    orig = B.Building.__dict__['BEMCalc']
+
+    def bemcalc(self, *a, **kw):
+        r = orig(self, *a, **kw)
+        b = V4.hvac_branch(self)
+        out['branches'][b] = out['branches'].get(b, 0) + 1
+        return r
+    try:
+        from uwg.utilities import REF_BLDTYPE, REF_BUILTERA, REF_ZONETYPE
+        out['labels'] = [REF_BLDTYPE[i], REF_BUILTERA[j], REF_ZONETYPE[k]]
+        epw = U.rp(src)
+        if kind:
+            tmp = os.path.join(tempfile.gettempdir(), 'c19_climate_%d.epw' % os.getpid())
+            S.save_epw(V4.climate_rows(S.load_epw(epw), kind, month, day), tmp)
+            epw = tmp
+        B.Building.BEMCalc = bemcalc
+        with core.quiet():
+            m = U.new_model(epw=epw, outdir=tempfile.gettempdir(), outname='c19c_%d.epw' % os.getpid(), nday=1,
+                            dtsim=dtsim, month=month, day=day, bld=[(REF_BLDTYPE[i], REF_BUILTERA[j], 1.0)],
+                            zone=REF_ZONETYPE[k])
+            m.generate()
+            b = m.BEM[0].building
+            out['rated'] = {'coolcap': b.coolcap, 'heat_cap': b.heat_cap}
+            m.simulate()
+            m.write_epw()
+        recs = U.records(m)
+        if len(recs) != 24 or any(r is None for r in recs):
+            out['error'] = 'incomplete records'
+        elif not all(math.isfinite(float(x)) for r in recs for x in r):
+            out['error'] = 'non-finite record'
+        elif not os.path.exists(m.new_epw_path):
+            out['error'] = 'no file written'
+        out['dry_hours'] = sum(1 for x in m.UCMData if x is not None and x.canHum == 0.0)
+        out['saturated_hours'] = sum(1 for x in m.UCMData if x is not None and x.canRHum >= 100.0)
+        ts = [x.canTemp - 273.15 for x in m.UCMData if x is not None]
+        out['canyon_C'] = [round(min(ts), 1), round(max(ts), 1)] if ts else None
+    except Exception as e:  # noqa: BLE001 - "without error" is the statement
+        import traceback
+        tb = traceback.extract_tb(e.__traceback__)[-1]
+        out['error'] = '%s: %s [%s:%s]' % (type(e).__name__, str(e).split('\n')[0][:200], os.path.basename(tb.filename),
+                                          tb.lineno)
+    finally:
+        B.Building.BEMCalc = orig
+        if tmp and os.path.exists(tmp):
+            os.remove(tmp)
+    return out
+
+
+def climate_jobs(chk, sb):
+    """archetype x climate jobs: every member of the hot / cold climate families, archetypes drawn at random and STEERED
+    to where a rated capacity binds (cold file x the archetypes with the smallest heating capacity - sized for warm zones;
+    hot file x the smallest cooling capacities)"""
+    import v4_util as V4
+    rng = chk.rng
+    quick = chk.tier == 'quick'
+    cells = [(i, j, k) for i in range(16) for j in range(3) for k in range(16)]
+    by_heat = sorted(cells, key=lambda c: sb[c[0]][c[1]][c[2]].building.heat_cap)
+    by_cool = sorted(cells, key=lambda c: sb[c[0]][c[1]][c[2]].building.coolcap)
+
+    def steered(lst, n):
+        # the smallest capacities, at most three per building type
+        out, seen = [], {}
+        for c in lst:
+            if seen.get(c[0], 0) < 3:
+                seen[c[0]] = seen.get(c[0], 0) + 1
+                out.append(c)
+            if len(out) >= n:
+                break
+        return out
+    weak_heat, weak_cool = steered(by_heat, 40), steered(by_cool, 40)
+    jobs = []
+    per = 1 if quick else 24
+    for n, (kind, (hc, _f)) in enumerate(V4.CLIMATES.items()):
+        src, month = (HOT[0], HOT[1]) if hc == 'hot' else (COLD[0], COLD[1])
+        weak = weak_cool if hc == 'hot' else weak_heat
+        for r in range(per):
+            c = rng.choice(weak[:12]) if (r + n) % 2 == 0 else rng.choice(cells)
+            jobs.append((core.REPO, c[0], c[1], c[2], src, month, 1, kind, V4.CLIMATE_DTSIM.get(kind, 300)))
+    # the files as shipped, archetypes whose rated capacity binds there
+    for r in range(2 if quick else 40):
+        c = weak_heat[r % len(weak_heat)] if not quick else rng.choice(weak_heat[:12])
+        jobs.append((core.REPO, c[0], c[1], c[2], COLD[0], COLD[1], 1, None, 300))
+        c = weak_cool[r % len(weak_cool)] if not quick else rng.choice(weak_cool[:12])
+        jobs.append((core.REPO, c[0], c[1], c[2], HOT[0], HOT[1], 1, None, 300))
+    if not quick:
+        # hurricane-force wind needs a shorter time step (at dtsim 300 the model's own fail-stop fires from ~25 m/s on)
+        for c in rng.sample(cells, 6):
+            jobs.append((core.REPO, c[0], c[1], c[2], COLD[0], COLD[1], 1, V4.STORM, 100))
+    return jobs
+
+
+def climate_retries(jobs, res):
+    """the model's own fail-stop (`FATAL ERROR ... try increasing the simulation timesteps per hour`) in a member of the
+    climate family at dtsim > 100: the same job at dtsim 100, as the message asks (DESIGN.md section 10: the property does
+    not fix the time step).  Runs on the files as shipped are never retried."""
+    return [(n, j[:8] + (100,)) for n, (j, r) in enumerate(zip(jobs, res))
+            if r['error'] and 'FATAL ERROR' in r['error'] and j[7] is not None and j[8] > 100]
+
+
+def climate_verdicts(chk, jobs, res, retried=()):
+    import v4_util as V4
+    if retried:
+        chk.measurements['climate_family_runs_stopped_by_the_models_own_fail_stop_at_dtsim_300'] = [
+            {'archetype': old['labels'], 'climate': old['climate'], 'rural file': old['epw'], 'at dtsim %s' % old['dtsim']:
+             old['error'], 'at dtsim 100': new['error'] or 'completes'} for old, new in retried]
+        chk.notes.append('%d run(s) of the climate family were stopped by the model\'s own fail-stop (FATAL ERROR, "try '
+                         'increasing the simulation timesteps per hour") and were repeated at dtsim 100 as the message asks: '
+                         'see measurements (recorded, not a verdict unless the repeated run fails too)' % len(retried))
+    fails = [r for r in res if r['error']]
+    for r in fails[:3]:
+        chk.violation('impl-violation', 'archetype cannot be simulated alone in a %s climate' % (
+            V4.CLIMATES[r['climate']][0] if r['climate'] in V4.CLIMATES else 'hot / cold'),
+                      case={'archetype (type, era, zone index)': r['cell'], 'labels': r.get('labels'),
+                            'rural file': r['epw'], 'climate laid over the simulated day': r['climate'],
+                            'start': [r['month'], r['day']], 'dtsim': r['dtsim'], 'rated capacities W/m2': r.get('rated'),
+                            'HVAC branches taken before the failure': r['branches']},
+                      observed=r['error'], expected='generate(); simulate(); write_epw() complete: 24 finite hourly records')
+    br = {}
+    for r in res:
+        br['climate:' + r['climate']] = br.get('climate:' + r['climate'], 0) + 1
+        for b, v in r['branches'].items():
+            br['hvac:' + b] = br.get('hvac:' + b, 0) + v
+        if r['dry_hours']:
+            br['canyon completely dry (humidity 0) at a record'] = br.get('canyon completely dry (humidity 0) at a record', 0) + r['dry_hours']
+        if r['saturated_hours']:
+            br['canyon saturated at a record'] = br.get('canyon saturated at a record', 0) + r['saturated_hours']
+    need = ['hvac:heating/at-capacity', 'hvac:cooling/at-capacity', 'hvac:heating', 'hvac:cooling', 'hvac:idle',
+            'canyon completely dry (humidity 0) at a record', 'canyon saturated at a record']
+    missing = [k for k in need if not br.get(k)]
+    if missing and not fails:
+        raise core.Infra('climate family of C19 no longer reaches: %s (%s)' % (missing, br))
+    ts = [r['canyon_C'] for r in res if r.get('canyon_C')]
+    if ts:
+        chk.measurements['climate_family_canyon_temperature_range_C'] = [min(t[0] for t in ts), max(t[1] for t in ts)]
+    chk.direct('simulate-in-climate-families(hot, cold; capacity-bound archetypes)', len(jobs), len(jobs),
+               '"can be simulated in hot and cold climates without error" with the climates as FAMILIES: legal rural rows at '
+               'the edges of what the EPW data dictionary allows, laid over the simulated day of the Singapore (hot) / '
+               'Toronto (cold) file - %s - and the files as shipped; archetypes drawn at random and steered to where a rated '
+               'capacity binds (cold file x the smallest heating capacities of the library, i.e. archetypes sized for warm '
+               'zones; hot file x the smallest cooling capacities). Every run: generate, simulate, write_epw complete with 24 '
+               'finite records. Demanded of the battery (else infrastructure error): capacity-limited and unlimited heating '
+               'and cooling and the idle branch of BEMCalc all taken, a completely dry (humidity exactly 0) and a saturated '
+               'canyon recorded. quick: one archetype per climate + 4 capacity-bound runs; thorough: 24 per climate + 80 + '
+               'hurricane-force wind at dtsim 100. Time step 300 s, the windy members at %s s: with sustained wind >= 15 m/s the '
+               'model\'s own fail-stop fires at dtsim 300 for some archetypes (recorded finding, see harness/v4_util.py); a '
+               'run of the family stopped by that fail-stop is repeated once at dtsim 100 and recorded'
+               % ('; '.join(V4.CLIMATES), V4.CLIMATE_DTSIM), mismatches=len(fails), branches=br)
+
+
 def _name(path):
     return path.replace('lib[0]', 'refBEM', 1).replace('lib[1]', 'Schedule', 1)
 
@@ -638,8 +803,18 @@ def run(chk):
         i, j, k = idx // 48, (idx // 16) % 3, idx % 16
         for epw, month in (HOT, COLD):
             jobs.append((core.REPO, i, j, k, epw, month, dts))
-    with multiprocessing.Pool(min(16, len(jobs))) as pool:
-        res = pool.map(simulate_one, jobs, chunksize=4)
+    cjobs = climate_jobs(chk, sb)
+    with multiprocessing.Pool(min(16, len(jobs) + len(cjobs))) as pool:
+        a1 = pool.map_async(simulate_one, jobs, chunksize=4 if len(jobs) > 64 else 1)
+        a2 = pool.map_async(simulate_climate, cjobs, chunksize=1)
+        res, cres = a1.get(), a2.get()
+        again = climate_retries(cjobs, cres)
+        retried = []
+        if again:
+            for (n, job), new in zip(again, pool.map(simulate_climate, [j for _, j in again], chunksize=1)):
+                retried.append((cres[n], new))
+                cjobs[n], cres[n] = job, new
+    climate_verdicts(chk, cjobs, cres, retried)
     fails = [r for r in res if r]
     for r in fails[:3]:
         chk.violation('impl-violation', 'archetype cannot be simulated',
